@@ -309,6 +309,29 @@ class Summaries:
             return [(s2, self.dest_agg(ctx, RESULT, 1, [e]))]
         return self.per_variant(ctx, st, v, h)
 
+    def s_bool_then(self, ctx, st):
+        """bool::then | bool::then_some"""
+        b, x = ctx.args
+        if not isinstance(b, BoolV):
+            return None
+        cv = st.facts.simplify(b.p).const_value()
+        out = []
+        lazy = ctx.callee["name"] == "then"
+        for val in (1, 0):
+            if cv is not None and cv != val:
+                continue
+            s2 = st.fork() if cv is None else st
+            if cv is None and not s2.facts.assume(b.p, val):
+                continue
+            if not val:
+                out.append((s2, self.dest_agg(ctx, OPTION, 0, [])))
+            elif lazy:
+                for s3, r in self.call_f(ctx, s2, x, []):
+                    out.append((s3, self.dest_agg(ctx, OPTION, 1, [r])))
+            else:
+                out.append((s2, self.dest_agg(ctx, OPTION, 1, [x])))
+        return out
+
     def s_res_err(self, ctx, st):
         """core::result::Result::err"""
         def g(var, fs):
@@ -643,6 +666,29 @@ class Summaries:
             return None
         out = [self.apply_fn(ctx, st, f, [e]) for e in arr.fields]
         return [(st, Agg("array", None, None, out, ctx.dest_ty))]
+
+    def s_split_at(self, ctx, st):
+        """slice::split_at | slice::split_at_mut"""
+        p, mid = ctx.args
+        if not isinstance(p, Ptr) or not isinstance(mid, IntV):
+            return None
+        n = self.ptr_len(ctx, st, p)
+        n = st.facts.simplify(n).const_value() if n is not None else None
+        m = st.facts.simplify(mid.poly()).const_value()
+        if n is None or m is None:
+            return None
+        ex = ctx.ex
+        if not ex.obligation(st, ctx.fr, ONE if m <= n else ZERO, {"kind": "index", "what": "mid <= len", "callee": ctx.callee["def"], "span": ctx.span}):
+            return []
+        base, path = 0, p.path
+        if path and path[-1][0] == "s":
+            base, path = path[-1][1], path[:-1]
+        ety = p.pty.get("ty") if p.pty and p.pty.get("k") in ("slice", "array") else None
+        sty = {"k": "slice", "ty": ety}
+        mut = ctx.callee["name"].endswith("_mut") and p.mut
+        a = Ptr(p.root, path + (("s", base, base + m),), IntV(ex.pbits, False, p=Poly.const(m)), sty, mut)
+        b = Ptr(p.root, path + (("s", base + m, base + n),), IntV(ex.pbits, False, p=Poly.const(n - m)), sty, mut)
+        return [(st, Agg("tuple", None, None, [a, b], ex.normalize(ctx.dest_ty) if ctx.dest_ty else None))]
 
     def s_split_first(self, ctx, st):
         """slice::split_first"""
